@@ -723,6 +723,7 @@ def run(ctx, config='rel-all'):
     # ---- R12 helpers, accessors, iterator glue
     from . import helpers
     helpers.check_vec(ctx, config, 'R12')
+    helpers.check_effect(ctx, config, 'R13', ('src/collections/vec.rs', 'src/collections/raw_vec.rs', 'src/collections/collect_in.rs'))
     # ---- R10 the exported vec! macro (no MIR inside the crate: analysed on its expansion in a client probe)
     if config == 'rel-all':
         from . import macros
